@@ -9,6 +9,9 @@ import (
 	"sync"
 	"time"
 
+	"github.com/markusressel/fan2go/internal/configuration"
+	"github.com/markusressel/fan2go/internal/fans"
+	"github.com/markusressel/fan2go/internal/sensors"
 	"github.com/markusressel/fan2go/internal/ui"
 )
 
@@ -25,6 +28,7 @@ type exechistCall struct {
 	// what another process does to the executable (the file itself, i.e. the link target when the history runs
 	// through a symlink) before this call: "" nothing | "vanish" (renamed away) | "dir" (renamed away, a directory in
 	// its place) | "chmod000" | "dangling" (renamed away, a dangling symlink in its place) | "restore"
+	// | "mode:ok" "mode:fail" "mode:garbage" "mode:sleep" (kind "moded": what the script does from now on)
 	Before string `json:"before,omitempty"`
 }
 type exechistIn struct {
@@ -89,7 +93,42 @@ func exechistRun(pr execPrepared, in exechistIn) (exechistObs, string) {
 			}
 		}
 	}
+	// all calls of a history go through ONE sensor / fan object, as in the daemon
+	pr.sensorObj = &sensors.CmdSensor{Config: configuration.SensorConfig{ID: "s", Cmd: &configuration.CmdSensorConfig{Exec: pr.path}}}
+	pr.fanObj = &fans.CmdFan{Config: configuration.FanConfig{ID: "f", Cmd: &configuration.CmdFanConfig{
+		SetPwm: &configuration.ExecConfig{Exec: pr.path, Args: []string{"%pwm%"}},
+		GetPwm: &configuration.ExecConfig{Exec: pr.path},
+		GetRpm: &configuration.ExecConfig{Exec: pr.path},
+	}}}
+	curOut := in.Base.Out
+	if in.Base.Kind == "moded" {
+		curOut = execTxt("42\n")
+	}
+	procTerm := func(exit string, exitAt int, out [][2]int) string {
+		return cRec("Starts", cRec("mkProc", exit, cRec("At", cZ(exitAt)), execCoqText(out), cRec("At", "0")))
+	}
 	mutate := func(what string) {
+		if strings.HasPrefix(what, "mode:") {
+			m := strings.TrimPrefix(what, "mode:")
+			_ = os.WriteFile(file+".mode", []byte(m+"\n"), 0o644) // a data file, never executed
+			switch m {
+			case "fail":
+				curOut = nil
+				pr.beh = procTerm(cRec("ExitCode", "1"), 0, nil)
+			case "garbage":
+				curOut = execTxt("abc\n")
+				pr.beh = procTerm(cRec("ExitCode", "0"), 0, curOut)
+			case "sleep":
+				curOut = nil
+				pr.beh = procTerm(cRec("ExitCode", "0"), in.Base.Sleep, nil)
+			default:
+				curOut = execTxt("42\n")
+				pr.beh = procTerm(cRec("ExitCode", "0"), 0, curOut)
+			}
+			okBeh = pr.beh
+			pr.ck = 0
+			return
+		}
 		switch what {
 		case "vanish":
 			clear()
@@ -124,7 +163,7 @@ func exechistRun(pr execPrepared, in exechistIn) (exechistObs, string) {
 			mutate(c.Before)
 		}
 		one := in.Base
-		one.Api, one.T = c.Api, c.T
+		one.Api, one.T, one.Out = c.Api, c.T, curOut
 		o, coq := execRunOnce(pr, one)
 		obs.Calls = append(obs.Calls, o)
 		terms = append(terms, strings.Replace(coq, "(mkCase ", "(mkCall ", 1))
@@ -193,6 +232,43 @@ func init() {
 						}
 						jobs = append(jobs, job{exechistIn{Base: execIn{Kind: "exit", Code: 0, Out: execTxt("42\n")}, ViaLink: via, Calls: cs}, tags})
 					}
+				}
+			}
+			// consecutive failures on ONE wrapper object, then success: seven failed reads of one kind (non-zero exit,
+			// garbage output, cannot start, timeout) and a mixed run; every single call within timeout + margin
+			streak := func(api int, fail string, undo string, gap int, n int) exechistIn {
+				cs := []exechistCall{{At: 0, Api: api, T: 1000, Before: "mode:ok"}}
+				for i := 0; i < n; i++ {
+					b := ""
+					if i == 0 {
+						b = fail
+					}
+					cs = append(cs, exechistCall{At: 100 + gap*i, Api: api, T: 1000, Before: b})
+				}
+				cs = append(cs, exechistCall{At: 100 + gap*n, Api: api, T: 1000, Before: undo}, exechistCall{At: 160 + gap*n, Api: api, T: 1000})
+				return exechistIn{Base: execIn{Kind: "moded", Sleep: 2000 + long}, Calls: cs}
+			}
+			for api := 1; api <= 4; api++ {
+				for _, k := range [][2]string{{"mode:fail", "mode:ok"}, {"mode:garbage", "mode:ok"}, {"chmod000", "restore"}, {"vanish", "restore"}} {
+					if ctx.Quick() && !(api == 1 && k[0] == "mode:fail") && !(api == 2 && k[0] == "mode:garbage") {
+						continue // quick: one representative per wrapper kind; thorough: every kind through every wrapper
+					}
+					jobs = append(jobs, job{streak(api, k[0], k[1], 60, 7), []string{"streak", "streak=" + k[0], "api=" + itoa(api)}})
+				}
+				// six (quick) / seven consecutive timeouts with the 2 s constant: ~14 s, runs beside the persistent history
+				if !ctx.Quick() || api == 1 {
+					nT := 7
+					if ctx.Quick() {
+						nT = 6
+					}
+					jobs = append(jobs, job{streak(api, "mode:sleep", "mode:ok", 2250, nT), []string{"streak", "streak=timeout", "api=" + itoa(api)}})
+				}
+				if !ctx.Quick() {
+					mixed := exechistIn{Base: execIn{Kind: "moded", Sleep: 2000 + long}}
+					for i, b := range []string{"mode:ok", "mode:fail", "mode:garbage", "chmod000", "restore", "mode:fail", "vanish", "restore", "mode:garbage", "mode:fail", "mode:ok", ""} {
+						mixed.Calls = append(mixed.Calls, exechistCall{At: 60 * i, Api: api, T: 1000, Before: b})
+					}
+					jobs = append(jobs, job{mixed, []string{"streak", "streak=mixed", "api=" + itoa(api)}})
 				}
 			}
 			if !ctx.Quick() {
